@@ -32,10 +32,10 @@ type Built struct {
 var L5 = []string{"C", "T", "S", "SS", "M"}
 
 // LF is the column-major layout family of C16.
-var LF = []string{"F", "Fc", "FS", "FT", "FM", "FR"}
+var LF = []string{"F", "Fc", "FS", "FT", "FM", "FR", "FL"}
 
 // LAll lists every layout the atlas can build.
-var LAll = []string{"C", "T", "S", "SS", "M", "ST", "TS", "Cl", "R", "F", "Fc", "FS", "FT", "FM", "FR"}
+var LAll = []string{"C", "T", "S", "SS", "M", "ST", "TS", "Cl", "R", "L", "F", "Fc", "FS", "FT", "FM", "FR", "FL"}
 
 func rev(s []int) []int {
 	o := make([]int, len(s))
@@ -213,6 +213,25 @@ func build(d ref.DT, shape []int, vals []interface{}, layout string) (*Built, er
 		for i := 1; i < r; i++ {
 			ms[i] = ref.Sl{Nil: true}
 		}
+		b.View, _, _ = rootV(rs).Slice(ms)
+	case "L": // only the LAST axis is sliced (columns 1..n of a root with n+2 columns): contiguous for a column-major root
+		if err := needRank(2); err != nil {
+			return nil, err
+		}
+		if shape[r-1] < 2 {
+			return nil, ErrNA
+		}
+		rs := ref.CopyInts(shape)
+		rs[r-1] += 2
+		b.RootT, b.Root = newRoot(d, rs, fort, false)
+		ms := make([]ref.Sl, r)
+		ts := make([]tensor.Slice, r)
+		for i := 0; i < r-1; i++ {
+			ms[i] = ref.Sl{Nil: true}
+		}
+		ms[r-1] = ref.Sl{Start: 1, End: shape[r-1] + 1, Step: 1}
+		ts[r-1] = tensor.S(1, shape[r-1]+1)
+		b.T = mustView(b.RootT.Slice(ts...))
 		b.View, _, _ = rootV(rs).Slice(ms)
 	case "SS":
 		if err := needRank(1); err != nil {
